@@ -380,6 +380,31 @@ BAD_FILES = [
 BAD_BODIES = ["<A><B>x</B>", "<A><B><C>x</C></A>", "<A></B>", "<A><B>x</B></A>junk", "<A><B>x</B></A>"]
 
 
+def _placeholders(draw, desc):
+    """One instance in six carries filler values in all its strings (0, 000000 - what a bank sends when it has nothing to
+    say): whatever a reader makes of fillers, it makes the same of them every time."""
+    if draw(st.integers(0, 5)) != 0:
+        return desc
+    filler = draw(st.sampled_from(["0", "000000", "N", "NONE"]))
+
+    def rec(d):
+        for a, v in list(d["kw"].items()):
+            if M.is_scalar(v):
+                if v[0] == "str":
+                    d["kw"][a] = ["str", filler]
+            else:
+                rec(v)
+        for i, m in enumerate(d["list"]):
+            if M.is_scalar(m):
+                if m[0] == "str":
+                    d["list"][i] = ["str", filler]
+            else:
+                rec(m)
+
+    rec(desc)
+    return desc
+
+
 def item_st(cls_names):
     U = M.universe()
 
@@ -388,9 +413,9 @@ def item_st(cls_names):
         k = draw(st.integers(0, 9))
         name = force_cls or draw(st.sampled_from(cls_names))
         if k <= 3:
-            return {"kind": "wire", "inst": draw(M.instance_st(U[name], max_members=2)), "form": draw(st.integers(0, 5))}
+            return {"kind": "wire", "inst": _placeholders(draw, draw(M.instance_st(U[name], max_members=2))), "form": draw(st.integers(0, 5))}
         if k <= 5:
-            return {"kind": "tree", "inst": draw(M.instance_st(U[name], max_members=2, markup=False))}
+            return {"kind": "tree", "inst": _placeholders(draw, draw(M.instance_st(U[name], max_members=2, markup=False)))}
         if k == 6:
             ty, tx = draw(st.sampled_from(TYPE_TEXTS))
             return {"kind": "type", "type": ty, "text": tx}
